@@ -19,7 +19,8 @@ RULE = ('Each case names a sub-command, a backend (local, s3c, s3, b2, or the cu
         '(precedence) the observation with several sources equals the observation with only the highest-priority of them; '
         '(source independence) the same text through any single source gives the same value and type; (defaults) nothing set '
         'gives the built-in/constructor default; (exclusion) documented exclusive pairs are rejected and the handler never '
-        'runs. Non-trivial: the option is set in >=2 sources with different values.')
+        'runs. Command-line options are spelled short, long, or as an unambiguous prefix of the long form (a prefix the parser '
+        'refuses, or takes for a custom backend setting, discards the case). Non-trivial: the option is set in >=2 sources with different values.')
 ASSUMPTIONS = ['a child created by fork() from a process that has replicat imported but has never run main() is equivalent to a fresh process',
                'a profile overriding the default section\'s password with password-file is not tested (README ambiguous)']
 
@@ -55,7 +56,7 @@ def cases(draw):
     kind = draw(st.sampled_from(['precedence', 'precedence', 'precedence', 'independence', 'independence', 'defaults', 'exclusive', 'location']))
     backend = draw(st.sampled_from(['local', 's3c', 's3', 'b2', 'pc', 'pca', 'pca']))
     cmd = draw(st.sampled_from(sorted(COMMANDS)))
-    c = {'kind': kind, 'backend': backend, 'cmd': cmd}
+    c = {'kind': kind, 'backend': backend, 'cmd': cmd, 'spelling': draw(st.sampled_from(['short', 'short', 'long', 'abbrev']))}
     if kind == 'exclusive':
         c['pair'] = draw(st.sampled_from(['-p/-P', 'no-cache/cache-directory', 'config/ignore-config', '-n/-N', 'shared/clone',
                                           'file:password+password-file', 'file:key+key-file']))
@@ -237,6 +238,25 @@ def toml_value(text, native):
     return json.dumps(text)
 
 
+# other spellings argparse accepts for the same options: the long form, and an unambiguous prefix of it
+SPELLINGS = {'-r': ('--repository', '--repo'), '-c': ('--concurrent', '--conc'), '-q': ('--hide-progress', '--hide-p'),
+             '-p': ('--password', '--password'), '-P': ('--password-file', '--password-f'), '-K': ('--key-file', '--key-f'),
+             '--config': ('--config', '--conf'), '--profile': ('--profile', '--prof'), '--ignore-config': ('--ignore-config', '--ignore-c'),
+             '--cache-directory': ('--cache-directory', '--cache-d'), '--no-cache': ('--no-cache', '--no-cach')}
+
+
+class AbbrevRejected(Exception):
+    pass
+
+
+def respell(argv, spelling):
+    if spelling == 'short':
+        return argv
+    i = 0 if spelling == 'long' else 1
+    # no generated option value equals one of these tokens (TEXT_VALUES, paths and repository strings never start with them)
+    return [SPELLINGS[a][i] if a in SPELLINGS else a for a in argv]
+
+
 class Invocation:
     """Builds argv / environ / TOML text for a (command, backend, option settings) combination."""
 
@@ -365,8 +385,21 @@ class Invocation:
                 and 'repository' not in self.sections['default'] and 'repository' not in self.sections['profile']:
             argv += ['-r', self.repo_value('base')]
         argv += self.argv_opts + self.extra_cmd_args + COMMANDS[case['cmd']]
+        plain = argv
+        argv = respell(argv, case.get('spelling', 'short'))
         try:
-            return run_cli(argv, self.environ, self.work), argv, toml
+            res = run_cli(argv, self.environ, self.work)
+            if case.get('spelling') == 'abbrev' and res['status'] == 'exit:2' \
+                    and run_cli(respell(plain, 'long'), self.environ, self.work)['status'] != 'exit:2':
+                # the parser refuses this prefix outright (argparse usage error): a clean rejection, not a wrong resolution
+                raise AbbrevRejected()
+            if case.get('spelling') == 'abbrev' and res.get('obs'):
+                # ... or takes it for an unknown word and hands it to the backend as a custom setting: then it is not a spelling of
+                # the option at all
+                text = str(res['obs'].get('settings'))
+                if any(repr(v[1][2:].replace('-', '_')) + ':' in text for k, v in SPELLINGS.items() if v[1] != v[0]):
+                    raise AbbrevRejected()
+            return res, argv, toml
         finally:
             if default_location:
                 try:
@@ -400,6 +433,8 @@ def run_case(case):
     work = env.fresh_dir('c19')
     try:
         return _run(case, work)
+    except AbbrevRejected:
+        return Outcome(None, [case['kind'], 'abbreviation-rejected-by-parser'], False)
     finally:
         env.rmtree(work)
 
